@@ -7,6 +7,7 @@ SOURCE_FNS = (
     "jxl_coding::Decoder::read_varint", "jxl_coding::Decoder::read_varint_with_multiplier",
     "jxl_coding::Decoder::read_varint_with_multiplier_clustered", "jxl_coding::DecoderRleMode::<'_>::read_varint_clustered",
     "jxl_coding::DecoderInner::read_varint_with_multiplier_clustered", "jxl_coding::DecoderInner::read_varint_with_multiplier_clustered_lz77",
+    "jxl_coding::DecoderInner::read_uint_prefilled",
 )
 UNPACK_FNS = ("jxl_bitstream::unpack_signed", "jxl_modular::sample::Sealed::unpack_signed_u32", "jxl_bitstream::unpack_signed_u64")
 W32 = {"u32", "i32"}
@@ -246,8 +247,6 @@ def run(ctx, crates):
                   "attacker choose any u32")
     total_src = 0
     for f in ctx.prog.all_fns(crates):
-        if f.crate == "jxl_coding":
-            continue
         findings, n_src = analyse(f)
         if not n_src:
             continue
